@@ -2,7 +2,7 @@ package main
 
 func init() {
 	register(&propDef{ID: "C01", Title: "A floating IP is never held by two live pods",
-		Explanation: "Decides the mechanisms uniqueness rests on, on every path: (R1) the two tables, the pool list and the guarded fields of table-resident objects are accessed only under cacheLock (lockset engine, W for writes); (R2) an object enters the allocated table only after the Create of that very object succeeded; (R3) store-client errors (AlreadyExists included) are returned by the store wrappers; (R4) every IPAM mutator call made by the scheduler plugin has the per-pod key-mutex class held along the call chain from every entry point (one listed exception: Preempt); (R5) in allocateIP a stored UID that differs from the pod's UID ends in an error return before any assign/mutator; (R6) the release API and resync free an IP only behind the not-running and key-unchanged edges, with a fail-safe liveness test, deciding on the record re-read under the pod lock; (R7) release events are queued only for deleted, finished or no-longer-existing pods (an IP freed under a live pod would be handed to a second one). (R12) the uid and node recorded for an ip are persisted and restored into the entry itself (pointer receiver), so the uid guard survives a reload. Does not decide that these mechanisms suffice under every interleaving, nor restart behaviour beyond that.",
+		Explanation: "Decides the mechanisms uniqueness rests on, on every path: (R1) the two tables, the pool list and the guarded fields of table-resident objects are accessed only under cacheLock (lockset engine, W for writes); (R2) an object enters the allocated table only after the Create of that very object succeeded; (R3) store-client errors (AlreadyExists included) are returned by the store wrappers; (R4) every IPAM mutator call made by the scheduler plugin has the per-pod key-mutex class held along the call chain from every entry point (one listed exception: Preempt); (R5) in allocateIP a stored UID that differs from the pod's UID ends in an error return before any assign/mutator; (R6) the release API and resync free an IP only behind the not-running and key-unchanged edges, with a fail-safe liveness test, deciding on the record re-read under the pod lock; (R7) release events are queued only for deleted, finished or no-longer-existing pods (an IP freed under a live pod would be handed to a second one). (R12) the uid and node recorded for an ip are persisted and restored into the entry itself (pointer receiver), so the uid guard survives a reload. Does not decide that these mechanisms suffice under every interleaving, nor restart behaviour beyond that. (R14) the ip list Bind writes into the annotation is built from the ipam lookup only: what the pod's own annotation already carried in common.ipinfos never flows into it.",
 		Assumptions: []string{"locks identified by (struct type, field); hashed key mutexes treated as one class per pool", "CFG paths, no feasibility reasoning"},
 		Run: func(c *Ctx) {
 			c.Rule("C01.R1", "tables only under the cache lock", 21)
@@ -32,6 +32,8 @@ func init() {
 			ruleTablesOnlyThroughHelpers(c, "C01.R11")
 			c.Rule("C01.R12", "the uid / node recorded for an ip survive a reload (persisted fields = restored fields, restored into the entry itself)", 1)
 			rulePersistRestoreAgree(c, "C01.R12")
+			c.Rule("C01.R14", "the ip list bind writes does not contain what the pod's own annotation carried", 1)
+			ruleBindAnnotationFromLookupOnly(c, "C01.R14")
 			c.Rule("C01.R13", "unbind acts only for the incarnation that holds the ip (a late event cannot free the ip of the new pod, which would then be handed out twice)", 2)
 			ruleUnbindUIDGuard(c, "C01.R13")
 			c.Rule("C01.R7", "release events are queued only for pods that are gone or finished", 2)
@@ -41,13 +43,17 @@ func init() {
 
 func init() {
 	register(&propDef{ID: "C04", Title: "A live pod's IP is never released, re-keyed or handed on",
-		Explanation: "Decides, for the two asynchronous releasers (release API, resync closure): (R1) the IP is re-read with the pod lock held; (R2) every unassign/reserve/release/unbind is reachable only through the not-running edge of podRunning and the key-unchanged edge of the re-read record; (R3) the liveness test is fail-safe: 'not running' only via NotFound / uid mismatch / finished, and only after asking the API server; (R4) IPAM Release/ReleaseIPs/UpdateAttr write the store only if the stored key equals the caller's key; (R5) uid, node, address and policy the decision uses derive from the re-read record, not from a snapshot taken before the lock (flow through memory cells checked with dominance); (R6) release events are queued only for deleted / finished / no-longer-existing pods and failed unbinds are re-queued. Does not decide orderings of late events against a replacement's bind (event history), nor informer lag.",
+		Explanation: "Decides, for the two asynchronous releasers (release API, resync closure): (R1) the IP is re-read with the pod lock held; (R2) every unassign/reserve/release/unbind is reachable only through the not-running edge of podRunning and the key-unchanged edge of the re-read record; (R3) the liveness test is fail-safe: 'not running' only via NotFound / uid mismatch / finished, and only after asking the API server; (R4) IPAM Release/ReleaseIPs/UpdateAttr write the store only if the stored key equals the caller's key; (R5) uid, node, address and policy the decision uses derive from the re-read record, not from a snapshot taken before the lock (flow through memory cells checked with dominance); (R6) release events are queued only for deleted / finished / no-longer-existing pods and failed unbinds are re-queued. Does not decide orderings of late events against a replacement's bind (event history), nor informer lag. (R14) the pod field of a queued release event is stored only at construction and the loop hands exactly that field to unbind: a retried event keeps the deleted incarnation's uid. (R15) IPAM.UpdateAttr is unreachable from the event / resync entry points (syncPodIP, syncIP, resyncPod, UpdatePod, DeletePod, unbind, loop; helpers and closures followed): uid and node of a record are written by Bind only.",
 		Assumptions: []string{"CFG paths; memory cells tracked field-sensitively inside one function only"},
 		Run: func(c *Ctx) {
 			c.Rule("C04.R1", "re-read under the pod lock", 1)
 			ruleReleasers(c, "C04.R1", "reread")
 			c.Rule("C04.R2", "freeing calls behind 'not running' and 'key unchanged'", 8)
 			ruleReleasers(c, "C04.R2", "guards")
+			c.Rule("C04.R14", "a release event keeps the pod object (uid) it was queued with", 2)
+			ruleEventKeepsItsPod(c, "C04.R14")
+			c.Rule("C04.R15", "uid / node of an allocated ip are written by Bind only (never from an event or resync pod object)", 3)
+			ruleAttrWrittenOnlyOnBind(c, "C04.R15")
 			c.Rule("C04.R13", "unbind acts only for the incarnation that holds the ip (UID guard in the event handler)", 2)
 			ruleUnbindUIDGuard(c, "C04.R13")
 			c.Rule("C04.R3", "fail-safe liveness test", 2)
@@ -77,7 +83,7 @@ func init() {
 
 func init() {
 	register(&propDef{ID: "C10", Title: "Cloud-provider assign/unassign calls are well ordered per IP",
-		Explanation: "Decides, in unbind, the release API and the resync closure: (R1) the unassign exists on the provider path, a failed unassign never proceeds to free/re-key and is returned/retried, no unassign follows a free, node and uid are cleared (reserveIP(key,key)) only after a successful unassign, and with a provider the free is preceded by the unassign unless no node is recorded; (R2) the UID guard of allocateIP ends in an error before any assign; (R3) a failed assign fails allocateIP and the pod is bound only after allocateIP succeeded; (R4) node names and addresses in the requests come from the stored/re-read record (unassign) and from the bind's node (assign). (R7) the provider wrappers return nil only behind reply.Success (or 'no provider configured'): a failed, missing or swallowed reply is never success. Does not decide whole per-IP call sequences across moves and retries (a state machine over a history).",
+		Explanation: "Decides, in unbind, the release API and the resync closure: (R1) the unassign exists on the provider path, a failed unassign never proceeds to free/re-key and is returned/retried, no unassign follows a free, node and uid are cleared (reserveIP(key,key)) only after a successful unassign, and with a provider the free is preceded by the unassign unless no node is recorded; (R2) the UID guard of allocateIP ends in an error before any assign; (R3) a failed assign fails allocateIP and the pod is bound only after allocateIP succeeded; (R4) node names and addresses in the requests come from the stored/re-read record (unassign) and from the bind's node (assign). (R7) the provider wrappers return nil only behind reply.Success (or 'no provider configured'): a failed, missing or swallowed reply is never success. Does not decide whole per-IP call sequences across moves and retries (a state machine over a history). (R8 = C04.R14) a retried release event still carries the deleted incarnation. (R9 = C04.R15) the node recorded for an ip is written by Bind only.",
 		Assumptions: []string{"CFG paths; the provider is reached only through cloudProviderAssignIP/UnAssignIP"},
 		Run: func(c *Ctx) {
 			c.Rule("C10.R1", "unassign before free; failure stops; node/uid cleared after", 10)
@@ -93,6 +99,10 @@ func init() {
 			c.Rule("C10.R6", "free / reserve after a pod is gone is entered only from the unassign-first paths; scheduling paths never release", 4)
 			ruleWhoMayUnbind(c, "C10.R6")
 			ruleSchedulingNeverReleases(c, "C10.R6")
+			c.Rule("C10.R8", "a retried release event still carries the deleted incarnation (uid guard compares that one)", 2)
+			ruleEventKeepsItsPod(c, "C10.R8")
+			c.Rule("C10.R9", "the node recorded for an ip is written by Bind only", 3)
+			ruleAttrWrittenOnlyOnBind(c, "C10.R9")
 			c.Rule("C10.R7", "provider wrappers report success only for a successful reply", 1)
 			ruleProviderSuccessOnlyOnReply(c, "C10.R7")
 			c.Rule("C10.R4", "request fields come from the re-read record", 4)
@@ -102,7 +112,7 @@ func init() {
 
 func init() {
 	register(&propDef{ID: "C03", Title: "IPs are released exactly when the release policy says so",
-		Explanation: "Decides: (R1) policy -> effect on every branch of unbindDpPod / unbindNoneDpPod / shouldRelease: PodDelete always releases and never reserves; Never never releases; Immutable releases only through `replicas==0`, `len(all ips of the prefix) > replicas`, `app gone`, `replicas < index+1`, and reserves only through their complements; lookup errors keep the IP; (R2) policy derivation: pool annotation forces Never, ConvertReleasePolicy maps the documented strings and defaults to PodDelete, every declared policy is produced, the PolicyStr table has one entry per declared constant; (R3) resync hands the re-read stored policy to the unbind functions; (R4) delete / finish events are queued and a failed unbind is re-queued; (R5) the Attr given to every IPAM allocator/UpdateAttr call carries a Policy derived from parseReleasePolicy(pod) (through parameters, checked at every caller); (R6) unbind parses the policy from the pod and routes deployment pods to unbindDpPod. (R9) only unbind takes the policy decision (scheduling paths never release or reserve directly), and a found pod counts as gone only when finished or of another uid — a terminating pod is still running. Numeric boundaries (>= for >) and quiescent-state equality over all histories are not decided.",
+		Explanation: "Decides: (R1) policy -> effect on every branch of unbindDpPod / unbindNoneDpPod / shouldRelease: PodDelete always releases and never reserves; Never never releases; Immutable releases only through `replicas==0`, `len(all ips of the prefix) > replicas`, `app gone`, `replicas < index+1`, and reserves only through their complements; lookup errors keep the IP; (R2) policy derivation: pool annotation forces Never, ConvertReleasePolicy maps the documented strings and defaults to PodDelete, every declared policy is produced, the PolicyStr table has one entry per declared constant; (R3) resync hands the re-read stored policy to the unbind functions; (R4) delete / finish events are queued and a failed unbind is re-queued; (R5) the Attr given to every IPAM allocator/UpdateAttr call carries a Policy derived from parseReleasePolicy(pod) (through parameters, checked at every caller); (R6) unbind parses the policy from the pod and routes deployment pods to unbindDpPod. (R9) only unbind takes the policy decision (scheduling paths never release or reserve directly), and a found pod counts as gone only when finished or of another uid — a terminating pod is still running. Numeric boundaries (>= for >) and quiescent-state equality over all histories are not decided. (R10) the owner lookups (statefulset lister, custom-resource replicas) conclude 'app gone' from NotFound only: from the err != nil edge, IsNotFound removed, every return carries the error (phi inputs resolved along the reached edges).",
 		Assumptions: []string{"CFG paths; constants identified by type and value"},
 		Run: func(c *Ctx) {
 			c.Rule("C03.R1", "policy -> release/reserve effect on every branch", 7)
@@ -117,6 +127,8 @@ func init() {
 			ruleCloneMatchesAssign(c, "C03.R7")
 			c.Rule("C03.R8", "the immutable-deployment count and its release/reserve decision run under the pool lock of the counted prefix", 12)
 			rulePoolLock(c, "C03.R8")
+			c.Rule("C03.R10", "owner lookups conclude \"app gone\" from NotFound only", 1)
+			ruleAppLookupErrorsKeep(c, "C03.R10")
 			c.Rule("C03.R9", "the policy decision is taken only by unbind (no direct release from scheduling paths) and only for pods that are gone: terminating pods count as running", 6)
 			ruleWhoMayUnbind(c, "C03.R9")
 			ruleSchedulingNeverReleases(c, "C03.R9")
@@ -130,22 +142,28 @@ func init() {
 
 func init() {
 	register(&propDef{ID: "C07", Title: "A sized IP pool never grows beyond its size",
-		Explanation: "Decides the mechanism 'count and allocate inside the pool lock': in the filter (getSubnet/getAvailableSubnet/allocateDuringFilter) deployment keys always pass LockDpPool(PoolPrefix()) before the count, nothing is counted or allocated before the lock, and isPoolSizeDefined can be true only on paths dominated by the lock acquisition; the count is over the locked prefix and the size/replicas limit ends in an error before any subnet is computed; pre-allocation through the API counts and allocates with the same lock class held (LockPoolFunc is bound to exactly the pool-lock wrapper) and lock key = counted prefix = allocation key; unbindDpPod counts and decides under the pool lock; a failed re-key never falls through to a fresh allocation and errors on this path are returned. (R4) once the Pool object was found, getDpReplicas answers (pool.Size, true) for every size value including 0. Does not decide the numeric bound under all interleavings nor that the size read before the lock is the size in force.",
+		Explanation: "Decides the mechanism 'count and allocate inside the pool lock': in the filter (getSubnet/getAvailableSubnet/allocateDuringFilter) deployment keys always pass LockDpPool(PoolPrefix()) before the count, nothing is counted or allocated before the lock, and isPoolSizeDefined can be true only on paths dominated by the lock acquisition; the count is over the locked prefix and the size/replicas limit ends in an error before any subnet is computed; pre-allocation through the API counts and allocates with the same lock class held (LockPoolFunc is bound to exactly the pool-lock wrapper) and lock key = counted prefix = allocation key; unbindDpPod counts and decides under the pool lock; a failed re-key never falls through to a fresh allocation and errors on this path are returned. (R4) once the Pool object was found, getDpReplicas answers (pool.Size, true) for every size value including 0. Does not decide the numeric bound under all interleavings nor that the size read before the lock is the size in force. (R5) inside the counting loop, from the `ip.Key != poolPrefix` edge the next iteration is reached without the increment only through an edge on which isPoolSizeDefined is false (the parameter itself or `isPoolSizeDefined || x` kept in a variable). (R6) the counter compared in the loop condition around AllocateInSubnet in preAllocateIP gets its initial value on an edge that cannot be reached again after an allocation (a fail-over to the next subnet continues the count).",
 		Assumptions: []string{"key mutex pools are identified by field (class), the key argument is checked to be the PoolPrefix() value"},
 		Run: func(c *Ctx) {
 			c.Rule("C07.R1", "count + allocate inside the pool lock (filter, pre-allocation, unbind); limit; error discipline", 12)
 			rulePoolLock(c, "C07.R1")
 			c.Rule("C07.R3", "pre-allocation only after the Pool object was stored successfully", 1)
 			rulePreallocAfterStore(c, "C07.R3")
+			c.Rule("C07.R5", "with a sized pool every used ip of the pool counts against the size", 1)
+			ruleSizedPoolCountsAll(c, "C07.R5")
+			c.Rule("C07.R6", "the pre-allocation counter carries across subnets", 1)
+			rulePreallocBoundCarries(c, "C07.R6")
 			c.Rule("C07.R4", "a found Pool object defines the size, whatever its value", 1)
 			rulePoolFoundDefinesSize(c, "C07.R4")
 			c.Rule("C07.R2", "releaser of a lock wrapper is deferred immediately", 4)
 			ruleWrapperDeferred(c, "C07.R2")
 		}})
 	register(&propDef{ID: "C02", Title: "Float IP is sticky across reschedule and rolling update",
-		Explanation: "Decides necessary conditions of 'reuse the reserved IP, never a fresh one': (R1) bind looks the pod's IPs up before allocating, has a success path that allocates nothing, allocates only the ranges whose lookup entry is nil, and only refreshes attributes of reused IPs under the same key; (R2) filter looks up first and returns the held IPs' node subnets without consulting the free pool; a partly allocated request is intersected with the held IPs' subnets; (R3) the UID guard; (R4) the re-key picks only an entry with the old key in a pool routable from the subnet, and updates store and memory with a clone of that entry under the new key; (R5) the unbind functions reserve instead of releasing for immutable/never (C03.R1). (R11) the wait-for-release decision of getAvailableSubnet is computed from every entry of the prefix listing (the loop has no break/return) and from Spec.Replicas only. Does not decide 'exactly the IP it held before' over all histories and event orders, nor 'newest first'.",
+		Explanation: "Decides necessary conditions of 'reuse the reserved IP, never a fresh one': (R1) bind looks the pod's IPs up before allocating, has a success path that allocates nothing, allocates only the ranges whose lookup entry is nil, and only refreshes attributes of reused IPs under the same key; (R2) filter looks up first and returns the held IPs' node subnets without consulting the free pool; a partly allocated request is intersected with the held IPs' subnets; (R3) the UID guard; (R4) the re-key picks only an entry with the old key in a pool routable from the subnet, and updates store and memory with a clone of that entry under the new key; (R5) the unbind functions reserve instead of releasing for immutable/never (C03.R1). (R11) the wait-for-release decision of getAvailableSubnet is computed from every entry of the prefix listing (the loop has no break/return) and from Spec.Replicas only. Does not decide 'exactly the IP it held before' over all histories and event orders, nor 'newest first'. (R12) when the app / pool holds an ip in reserve, the set returned by getAvailableSubnet on the `reserved.Len() > 0` edge is the very set the reserved entries were collected into, with reserve=true and nil error; no other return is reachable from that edge (free capacity is not consulted).",
 		Assumptions: []string{"CFG paths; data dependence is syntactic (SSA operands, phis, local cells)"},
 		Run: func(c *Ctx) {
+			c.Rule("C02.R12", "with an ip in reserve the reserved subnets are the answer", 1)
+			ruleReserveDefinesAnswer(c, "C02.R12")
 			c.Rule("C02.R11", "the wait-for-release decision uses the whole prefix listing and the desired replica count", 1)
 			ruleUsedCountWholeListing(c, "C02.R11")
 			c.Rule("C02.R1", "lookup before allocate; reuse path; filter/bind node-subnet agreement", 6)
@@ -168,7 +186,7 @@ func init() {
 			ruleFilterAllocErrors(c, "C02.R6")
 		}})
 	register(&propDef{ID: "C06", Title: "Filter-approved nodes can be bound and get a routable IP",
-		Explanation: "Decides: (R1) allocation only from pools that list the node subnet (single-IP allocator, multi-IP candidate callback, re-key); (R2) the ipinfo written for an IP takes mask, VLAN and gateway from that IP's own pool and the address from the IP; (R3) Filter keeps a node iff the computed subnet set contains getNodeSubnet(node), records the others as failed, and fails on a getSubnet error; filter and bind resolve node subnets through the same IPAM query; (R4) a pod that holds IPs is offered only their node subnets, and a partly allocated request is intersected with them; (R5) on reload an allocation is attached to the pool whose ranges contain the IP (not merely whose subnet does); errors on the allocation path are returned. (R8) a requested range without a free ip makes NodeSubnetsByIPRanges return the empty set, and after the allocation made during filter getSubnet returns exactly {the subnet of that allocation}. Does not decide that bind succeeds after filter, nor 'exactly the nodes with a free routable IP' (set equality over runtime tables).",
+		Explanation: "Decides: (R1) allocation only from pools that list the node subnet (single-IP allocator, multi-IP candidate callback, re-key); (R2) the ipinfo written for an IP takes mask, VLAN and gateway from that IP's own pool and the address from the IP; (R3) Filter keeps a node iff the computed subnet set contains getNodeSubnet(node), records the others as failed, and fails on a getSubnet error; filter and bind resolve node subnets through the same IPAM query; (R4) a pod that holds IPs is offered only their node subnets, and a partly allocated request is intersected with them; (R5) on reload an allocation is attached to the pool whose ranges contain the IP (not merely whose subnet does); errors on the allocation path are returned. (R8) a requested range without a free ip makes NodeSubnetsByIPRanges return the empty set, and after the allocation made during filter getSubnet returns exactly {the subnet of that allocation}. Does not decide that bind succeeds after filter, nor 'exactly the nodes with a free routable IP' (set equality over runtime tables). (R9 = C08.R9) the rollback of a failed multi-ip allocation reaches the first created object (memory says free => the store has no object). (R10) no ConfigurePool call is reachable after the reset of the node-subnet cache (inside the resetting function, after the call of a resetting helper, or after a plainly called closure; a deferred closure runs last).",
 		Assumptions: []string{"CFG paths"},
 		Run: func(c *Ctx) {
 			c.Rule("C06.R1", "allocation only from pools that list the node subnet", 4)
@@ -184,6 +202,10 @@ func init() {
 			c.Rule("C06.R7", "a reserved ip leaves the free table (paired moves); reservation handlers guarded", 6)
 			ruleTablesOnlyThroughHelpers(c, "C06.R7")
 			ruleReservationHandlers(c, "C06.R7")
+			c.Rule("C06.R9", "the rollback of a failed multi-ip allocation leaves no store object behind (memory says free => bind can create)", 1)
+			ruleRollbackCoversFirst(c, "C06.R9")
+			c.Rule("C06.R10", "the node-subnet cache is dropped after the pools were reconfigured, never before", 1)
+			ruleCacheResetAfterReconfigure(c, "C06.R10")
 			c.Rule("C06.R8", "an unservable range vetoes the pod; after the allocation during filter exactly that subnet is offered", 1)
 			ruleFilterSubnetAnswers(c, "C06.R8")
 			c.Rule("C06.R5", "reload attaches an allocation to the pool whose ranges contain it", 2)
